@@ -6,6 +6,7 @@ package wrgl
 import (
 	"bytes"
 	"encoding/hex"
+	"errors"
 	"fmt"
 	"runtime"
 	"sort"
@@ -310,6 +311,13 @@ func pullSingleRepo(
 		_, sum, com, err := ref.InterpretCommitName(db, rs, mergeHeads[0], true)
 		if err != nil {
 			return fmt.Errorf("can't get merge head ref: %v", err)
+		}
+		// this path creates the branch, it must never move one: the name lookup
+		// above also answers "can't find branch" when the ref store cannot be read
+		if oldSum, err := ref.GetRef(rs, name); err != nil && !errors.Is(err, ref.ErrKeyNotFound) {
+			return err
+		} else if oldSum != nil {
+			return fmt.Errorf("branch %q already exists", strings.TrimPrefix(name, "heads/"))
 		}
 		if err = ref.SaveRef(rs, name, sum, c.User.Name, c.User.Email, "pull", "created from "+mergeHeads[0], nil); err != nil {
 			return err
